@@ -391,6 +391,12 @@ def judge_setter(ctx, f, fld, path):
         issues.append(('C02', 'violation', base + ':param-narrow',
                        '%s: value parameter has %d bits but field %s.%s has %d: value 2^%d cannot be stored'
                        % (where, P, fmt, fld['name'], fld['width'], P)))
+    if P == 1:
+        # an i1 parameter is C's _Bool: the caller converts v to (v != 0), not to v mod 2 - Set(2) stores 1
+        issues.append(('C02', 'violation', base + ':param-bool',
+                       '%s: value parameter has type _Bool, so the caller converts the value to (v != 0) before the call: '
+                       'writing 2 to the %d-bit field %s.%s stores 1, not 2 mod 2^%d = 0'
+                       % (where, fld['width'], fmt, fld['name'], fld['width'])))
     for rec in recs:
         if rec['status'] == 'infeasible':
             continue
